@@ -77,6 +77,8 @@ def mk_okval(r):
         return mk_okval(r[1][-1])
     if isinstance(r, tuple) and r and r[0] == "okif":
         return mk_okval(r[1])
+    if isinstance(r, tuple) and r and r[0] == "optmap":
+        return r[2]
     if isinstance(r, tuple) and r and r[0] == "agg" and r[2] in ("Ok", "Some") and len(r[3]) == 1 \
             and r[1] in ("std::result::Result", "std::option::Option"):
         return r[3][0]
@@ -166,6 +168,7 @@ class Ctx:
         self.open_loops = False     # accept loops without a recognisable trip count (body recorded once)
         self.collect_asserts = False  # record every assert terminator / panicky std call with the facts known there
         self.asserts = []
+        self.aggs = []              # aggregate construction sites (crate enums/structs) with the facts known there
         self.verify_fn = r"verify_macro_impl$"   # fn(cond, ..) -> Result that is Ok iff cond
         self.napply = 0
         self.log_calls = None       # regex: calls whose (name, args, site) are appended to self.calls
@@ -511,6 +514,10 @@ class Interp:
             # r.and_then(f): on the Ok path the closure runs with r's payload; the result is Ok iff both are
             r2 = self.inline_closure(args[1], [mk_okval(args[0])], ev, site)
             return ("allok", (args[0], r2))
+        if name == "map" and self.ctx.collect_asserts and re.search(r"^std::option::Option::<", full) and len(args) == 2 \
+                and isinstance(strip_casts(args[1]), tuple) and strip_casts(args[1])[0] == "closure":
+            v = self.inline_closure(args[1], [self.proj(args[0], ["@Some", ".0"])], ev, site)
+            return ("optmap", args[0], v)
         if name == "map_or_else" and re.search(r"Option", full) and len(args) == 3:
             none_v = self.inline_closure(args[1], [], ev, site, pure=True)
             some_v = self.inline_closure(args[2], [self.proj(args[0], ["@Some", ".0"])], ev, site, pure=True)
@@ -581,6 +588,7 @@ class Interp:
         if len(cb.blocks) > 60 or cb.argc != len(args):
             return None
         na = len(self.ctx.asserts)
+        ng = len(self.ctx.aggs)
         try:
             sub = Interp(self.ctx, cb, args, self.depth + 1)
             ev = sub.run()
@@ -589,7 +597,7 @@ class Interp:
                 return None
             if self.ctx.collect_asserts:
                 # assertion sites inside the callee were recorded without the caller's facts: prepend them
-                for rec in self.ctx.asserts[na:]:
+                for rec in self.ctx.asserts[na:] + self.ctx.aggs[ng:]:
                     rec["assume"] = list(self.assume) + rec["assume"]
                     rec.setdefault("via", []).append(self.body.id)
                 out_ty = cb.raw.get("output") or ""
@@ -700,7 +708,12 @@ class Interp:
                 continue
             if s["dst"]["p"]:
                 continue
-            self.env[s["dst"]["l"]] = self.rvalue(s["rv"])
+            v = self.rvalue(s["rv"])
+            self.env[s["dst"]["l"]] = v
+            if self.ctx.collect_asserts and s["rv"]["k"] == "agg" and s["rv"].get("ak") == "adt" \
+                    and s["rv"].get("adt") in self.facts.adts and s["rv"].get("ops"):
+                self.ctx.aggs.append({"adt": s["rv"]["adt"], "variant": s["rv"].get("variant"), "ops": v[3],
+                                      "assume": list(self.assume), "body": self.body.id})
 
     def exec_term(self, bi, ev):
         t = self.body.term(bi)
@@ -713,6 +726,10 @@ class Interp:
         """Record what taking the edge to `tgt` of switch `t` implies."""
         sc = self.operand(t["d"])
         labs = [v for v, x in t["vals"] if x == tgt]
+        if len(labs) > 1 and t["else"] != tgt and all(isinstance(v, int) for v in labs):
+            self.assume.append(("cond", ("bin", "Le", C(min(labs)), sc), 1))
+            self.assume.append(("cond", ("bin", "Le", sc, C(max(labs))), 1))
+            return
         if len(labs) == 1 and t["else"] != tgt:
             self.assume_eq(sc, labs[0])
         elif not labs and t["else"] == tgt and len(t["vals"]) == 1:
